@@ -129,6 +129,9 @@ func detectRenames(p *Program) {
 			if fn.Synthetic != "" || fn.Pkg == nil || fn.Parent() != nil || !strings.HasPrefix(fn.Pkg.Pkg.Path(), btcdPrefix) {
 				continue
 			}
+			if p.progFor(fn.Pkg.Pkg.Path()) != pr {
+				continue // the module-cache copy of a package that is analysed from the tree in the other program
+			}
 			if fn.TypeParams().Len() > 0 || len(fn.TypeArgs()) > 0 {
 				continue
 			}
@@ -201,7 +204,7 @@ func listFuncs(p *Program) []string {
 			if fn.Synthetic != "" || fn.Pkg == nil || fn.Parent() != nil {
 				continue
 			}
-			if !strings.HasPrefix(fn.Pkg.Pkg.Path(), btcdPrefix) {
+			if !strings.HasPrefix(fn.Pkg.Pkg.Path(), btcdPrefix) || p.progFor(fn.Pkg.Pkg.Path()) != pr {
 				continue
 			}
 			set[funcID(fn)+"\t"+sigString(fn)] = true
@@ -574,7 +577,7 @@ func eachStruct(p *Program, f func(id string, st *types.Struct)) {
 			continue
 		}
 		for path, pk := range pr.All {
-			if !strings.HasPrefix(path, btcdPrefix) || pk.Types == nil {
+			if !strings.HasPrefix(path, btcdPrefix) || pk.Types == nil || p.progFor(path) != pr {
 				continue
 			}
 			sc := pk.Types.Scope()
